@@ -391,10 +391,31 @@ def rule_j(repo, chk):
         chk.ob('C07.j', ok, t.ast, 'a reversed range is answered with RefactoringError')
 
 
+def rule_k(repo, chk):
+    chk.clause('C07.k', 'white space of the original is carried over as text: the refactoring modules never build indentation or padding from a '
+                        'count (`\' \' * n`, ljust/rjust/center/expandtabs), and the indentation of a replacement statement is the last line of the '
+                        'original first leaf\'s prefix (tabs, form feeds and mixed indentation survive)')
+    from ..summaries import check_summary
+    check_summary(repo, chk, 'C07.k', EXT, '_get_indentation')
+    n_funcs = 0
+    for modname in (REF, EXT):
+        mod = repo.modules[modname]
+        for fn in [x for x in ast.walk(mod.tree) if isinstance(x, FUNC_TYPES)]:
+            n_funcs += 1
+            for x in own_nodes(fn):
+                ws = lambda e: isinstance(e, ast.Constant) and isinstance(e.value, str) and e.value != '' and e.value.strip(' \t\f\v') == ''
+                if isinstance(x, ast.BinOp) and isinstance(x.op, ast.Mult) and (ws(x.left) or ws(x.right)):
+                    chk.ob('C07.k', False, x, 'white space synthesised from a count: `%s`' % short(x), key='%s|ws-mult|%s' % (repo.qual_of(x), norm(x)))
+                if isinstance(x, ast.Call) and isinstance(x.func, ast.Attribute) and x.func.attr in ('ljust', 'rjust', 'center', 'expandtabs', 'zfill'):
+                    chk.ob('C07.k', False, x, 'white space synthesised by `%s`' % short(x), key='%s|ws-pad|%s' % (repo.qual_of(x), norm(x)))
+    chk.floor('C07.k', n_funcs, 15, '(functions of the refactoring modules scanned)')
+    chk.ob('C07.k', True, None, '%d functions of jedi.api.refactoring scanned for synthesised white space: none' % n_funcs, key='ws-scan')
+
+
 def describe(chk):
     chk.undecided('that difflib\'s output applies cleanly and that parso\'s refactor preserves all bytes outside the rewritten nodes (library behaviour); '
                   'which nodes a refactoring rewrites')
     chk.assume('an attribute call .rename(x)/.replace(x) with one argument on an unresolved receiver is a pathlib rename')
 
 
-RULES = [('C07.a', rule_a), ('C07.b', rule_b), ('C07.c', rule_c), ('C07.d', rule_d), ('C07.e', rule_e), ('C07.f', rule_f), ('C07.g', rule_g), ('C07.h', rule_h), ('C07.i', rule_i), ('C07.j', rule_j)]
+RULES = [('C07.a', rule_a), ('C07.b', rule_b), ('C07.c', rule_c), ('C07.d', rule_d), ('C07.e', rule_e), ('C07.f', rule_f), ('C07.g', rule_g), ('C07.h', rule_h), ('C07.i', rule_i), ('C07.j', rule_j), ('C07.k', rule_k)]
